@@ -228,8 +228,8 @@ def histories(chk, tier):
         # columns in any order only for the small schemas (the interleavings are enumerated, not sampled)
         hs += stride(wcommon.gen_histories(chk, [2, 3], [0, 1, 2, 9], 2, 3, nullmode="runs", anyorder=True,
                                            simulate=8, depth=60, workers=6), 15)
-        hs += stride(wcommon.gen_histories(chk, [2, 3, 4, 5, 6, 7, 8], [0, 1, 2, 9, 17], 3, 3, nullmode="runs",
-                                           simulate=16, depth=60, workers=6), 40)
+        hs += stride(wcommon.gen_histories(chk, [2, 3, 4, 5, 6, 7, 8], [0, 2, 9, 17], 3, 3, nullmode="runs",
+                                           simulate=8, depth=60, workers=6), 40)
     seen, out = set(), []
     for h in hs:
         k = json.dumps(h, sort_keys=True)
